@@ -341,7 +341,7 @@ def gen_cases(rng: Rng, tier):
                 N = rng.randint(1, 4)
                 sub = rng.choice(["rand", "inspace", "inspace", "smoothish"])
                 pen = rng.choice([0, 0, Fraction(1, 2), 1, 4]) if sub != "inspace" else 0
-                case = dict(kind=kind, lay=rng.choice(LAYOUTS), dim=1, nseg=nseg, deg=deg, t=[rs(x) for x in _grid(rng, m)], N=N, sub=sub,
+                case = dict(kind=kind, penspell=rng.choice(["tuple", "list", "int", "float", "np", "array"]), lay=rng.choice(LAYOUTS), dim=1, nseg=nseg, deg=deg, t=[rs(x) for x in _grid(rng, m)], N=N, sub=sub,
                             pen=rs(pen), Y=_S([rng.dyadics(m, -4, 4, 3) for _ in range(N)]),
                             G=_S([rng.dyadics(nseg + deg, -3, 3, 2) for _ in range(N)]), pts=rng.random() < 0.3)
                 if rng.random() < 0.5:
@@ -365,7 +365,7 @@ def gen_cases(rng: Rng, tier):
                 N = rng.randint(1, 2)
                 sub = rng.choice(["rand", "inspace"])
                 pen = rng.choice([0, 1, Fraction(1, 2)]) if sub != "inspace" else 0
-                case = dict(kind=kind, lay=rng.choice(LAYOUTS), dim=2, nseg=nseg, deg=deg, t1=[rs(x) for x in _grid(rng, m1)],
+                case = dict(kind=kind, penspell=rng.choice(["tuple", "list", "array", "mixed0", "mixed1"]), lay=rng.choice(LAYOUTS), dim=2, nseg=nseg, deg=deg, t1=[rs(x) for x in _grid(rng, m1)],
                             t2=[rs(x) for x in _grid(rng, m2)], N=N, sub=sub, pen=rs(pen),
                             Y=_S([rng.dyadics(m1 * m2, -4, 4, 3) for _ in range(N)]),
                             G=_S([rng.dyadics((nseg + deg) ** 2, -3, 3, 2) for _ in range(N)]))
@@ -687,6 +687,32 @@ def _run_csv(case):
     return out
 
 
+def _spell(pen, dim, how):
+    """The same penalty in every spelling the entry points accept (a zero penalty is falsy in some of them)."""
+    p = float(pen)
+    if dim == 1:
+        if how == "int" and p == int(p):
+            return int(p)
+        if how == "float":
+            return p
+        if how == "np":
+            return np.float64(p)
+        if how == "list":
+            return [p]
+        if how == "array":
+            return np.array([p])
+        return (p,)
+    if how == "list":
+        return [p, p]
+    if how == "array":
+        return np.array([p, p])
+    if how == "mixed0":
+        return (0, p)
+    if how == "mixed1":
+        return (p, 0.0)
+    return (p, p)
+
+
 def _run_ps(case):
     from FDApy.misc.basis import _basis_bsplines
     from FDApy.representation.argvals import DenseArgvals
@@ -709,7 +735,8 @@ def _run_ps(case):
             if case["sub"] == "smoothish":
                 Y = np.cumsum(Y, axis=1) / 4
         fd = DenseFunctionalData(DenseArgvals({"input_dim_0": t}), DenseValues(_lay(Y, case.get("lay", "C"))))
-        penalty = (pen,)
+        penalty = _spell(pen, 1, case.get("penspell", "tuple"))
+        canon = (pen,)
         out["rank"] = int(np.linalg.matrix_rank(B))
         out["cond"] = float(np.linalg.cond(B @ B.T)) if pen == 0 else 0.0
     else:
@@ -723,7 +750,8 @@ def _run_ps(case):
         else:
             Y = np.array(fl(_Fm(case["Y"]))).reshape(-1, len(t1), len(t2))
         fd = DenseFunctionalData(DenseArgvals({"input_dim_0": t1, "input_dim_1": t2}), DenseValues(_lay(Y, case.get("lay", "C"))))
-        penalty = (pen, pen)
+        penalty = _spell(pen, 2, case.get("penspell", "tuple"))
+        canon = tuple(float(x) for x in penalty)
         out["rank"] = int(min(np.linalg.matrix_rank(B1), np.linalg.matrix_rank(B2)))
         BB = np.kron(B1, B2)
         out["cond"] = float(np.linalg.cond(BB @ BB.T)) if pen == 0 else 0.0
@@ -761,6 +789,11 @@ def _run_ps(case):
             out["tb_grid"] = bf.to_grid().values.reshape(len(Y), -1).tolist()
             sm = fd.smooth(method="PS", penalty=penalty, **kw)
             out["smooth"] = sm.values.reshape(len(Y), -1).tolist()
+            # the same penalty in its canonical spelling (a tuple of floats)
+            out["smooth_canon"] = fd.smooth(method="PS", penalty=canon, **kw).values.reshape(len(Y), -1).tolist()
+            out["coefs_canon"] = fd.to_basis(penalty=canon, **kw).coefficients.tolist()
+            out["pen_used"] = repr(penalty)
+            out["pen_all_zero"] = bool(all(float(x) == 0 for x in np.atleast_1d(np.asarray(penalty, dtype=float))))
             out["same_argvals"] = bool(bf.to_grid().argvals == fd.argvals)
         except Exception as e:
             out["error"] = err_class(e) + ":" + str(e)[:120]
@@ -1224,6 +1257,11 @@ def _oracle_ps(case, impl):
     if not _near(impl["tb_grid"], impl["smooth"], sc, tol):
         vs.append(dict(clause="to_basis_to_grid", entry="DenseFunctionalData.to_basis",
                        msg=f"to_basis().to_grid() differs from smooth(method='PS') with the same settings: max |Δ| = {np.abs(np.array(impl['tb_grid']) - np.array(impl['smooth'])).max():.3g}"))
+    for k_, kc in (("smooth", "smooth_canon"), ("coefs", "coefs_canon")):
+        if kc in impl and not _near(impl[k_], impl[kc], _scale(impl[kc]), 1e-9):
+            vs.append(dict(clause="option_spelling", entry="DenseFunctionalData." + ("smooth" if k_ == "smooth" else "to_basis"),
+                           msg=f"penalty={impl.get('pen_used')} does not give the result of the same penalty written as a tuple of floats: "
+                               f"max |Δ| = {np.abs(np.array(impl[k_]) - np.array(impl[kc])).max():.3g}"))
     if not impl.get("same_argvals", True):
         vs.append(dict(clause="to_basis_to_grid", entry="DenseFunctionalData.to_basis", msg="to_grid() of the expansion is on other sampling points"))
     for key, r in (impl.get("irr") or {}).items():
@@ -1237,7 +1275,7 @@ def _oracle_ps(case, impl):
     d = case["dim"]
     if len(impl["coefs"][0]) != K ** d or impl["basis_shape"][0] != K ** d:
         vs.append(dict(clause="to_basis_to_grid", entry="DenseFunctionalData.to_basis", msg=f"number of coefficients {len(impl['coefs'][0])}, basis {impl['basis_shape']}, expected {K ** d}"))
-    if case["sub"] == "inspace" and F(case["pen"]) == 0 and impl["rank"] == K and impl.get("cond", 1e30) < 1e10:
+    if case["sub"] == "inspace" and impl.get("pen_all_zero", F(case["pen"]) == 0) and impl["rank"] == K and impl.get("cond", 1e30) < 1e10:
         if not _near(impl["tb_grid"], Y, sc, 1e-6):
             vs.append(dict(clause="exact_recovery", entry="DenseFunctionalData.to_basis", msg="a curve of the spline space is not returned exactly with zero penalty"))
         if not _near(impl["coefs"], impl["gamma"], _scale(impl["gamma"]), 1e-6):
@@ -1287,7 +1325,7 @@ def classify(case, impl):
     elif k == "csv":
         tags += ["csv-header:" + case["hk"], "csv-loaded:" + str(impl.get("cls", impl.get("error")))]
     elif k == "ps":
-        tags += [f"ps:{case['dim']}d-{case['sub']}", "ps-penalty:" + ("0" if F(case["pen"]) == 0 else ">0")]
+        tags += [f"ps:{case['dim']}d-{case['sub']}", "ps-penalty:" + ("0" if F(case["pen"]) == 0 else ">0"), "ps-penalty-spelling:" + str(case.get("penspell"))]
         if impl.get("rank", 99) < impl.get("K", 0):
             tags.append("ps:singular")
     return tags
